@@ -42,7 +42,7 @@ func (v *VerifQPS) Tick() { v.q.updateToken() }
 func (v *VerifQPS) Tokens() int32 { return atomic.LoadInt32(&v.q.tokens) }
 
 // Once returns the refill amount per tick.
-func (v *VerifQPS) Once() int32 { return v.q.once }
+func (v *VerifQPS) Once() int32 { return atomic.LoadInt32(&v.q.once) }
 
 // Limit returns the bucket capacity.
 func (v *VerifQPS) Limit() int32 { return v.q.getLimit() }
